@@ -4,7 +4,7 @@
    phase whose drift is below the gate's margin, decryption of an output within 1/8 of +-1/8, and the composition.
    The two probabilistic side conditions (modulus-switch drift, output error) are hypotheses measured by the check. *)
 From Coq Require Import ZArith List Lia Bool.
-From TV Require Import Base.Int32 Model.Numeric Model.Lwe Model.Bootstrap Model.Gates Proofs.Gates.
+From TV Require Import Base.Int32 Model.Numeric Model.Lwe Model.Bootstrap Model.Gates Proofs.Numeric Proofs.Gates Proofs.Drift.
 Import ListNotations.
 Local Open Scope Z_scope.
 
@@ -69,6 +69,19 @@ Theorem C01_mux_value : forall (a b c : bool) e1 e2, Z.abs (e1 + e2) < 536870912
   0 < w32 (c18 + u1 + u2) <-> (if a then b else c) = true.
 Proof. exact mux_sum_value. Qed.
 Print Assumptions C01_mux_value.
+
+(* when the worst-case rounding drift (1+|s|_1) * 2^32/(4N) is below the gate's margin, the drift hypothesis is implied and the truth
+   table follows from the output error bound alone, for every key, every admissible inputs and every mask (small-n configurations;
+   for n = 630 an adversarial mask can exceed the margin, which is why C01 is partial) *)
+Theorem C01_gate_correct_worstcase : forall g (N : nat) (S : Z) n key ca cb (a b : bool) cout e,
+  (0 < N)%nat -> inDomain (2 * Z.of_nat N) -> 2 * Z.of_nat N * S = p32 ->
+  length (fst ca) = n -> length (fst cb) = n ->
+  admissible (lwe_phase key ca) a -> admissible (lwe_phase key cb) b ->
+  (1 + Drift.l1 key) * S < 2 * gate_margin g ->
+  lwe_phase key cout = (if rot_exponent N key (gate_lin g n ca cb) <? Z.of_nat N then MU else - MU) + e -> Z.abs e < 536870912 ->
+  decrypt_bit key cout = bit_of (gate_table g a b).
+Proof. exact gate_correct_worstcase. Qed.
+Print Assumptions C01_gate_correct_worstcase.
 
 (* the hypotheses are satisfiable: a noiseless instance of AND on (1,0) with N = 4 *)
 Example C01_nonvacuous :
